@@ -120,7 +120,7 @@ fn check_listing(ctx: &mut Ctx, src: &str, s: usize, e: usize) {
 }
 
 fn random_listing_text(r: &mut Rng) -> String {
-    const P: [&str; 22] = ["x", "foo", " ", "  ", "\t", "é", "\u{1d465}", "€", "(", ")", "+", "=", "1", "42", "\n", "\n", "\r\n", " \n", "# c", "λ", "if", "then"];
+    const P: [&str; 26] = ["x", "foo", " ", "  ", "\t", "é", "\u{1d465}", "€", "(", ")", "+", "=", "1", "42", "\n", "\n", "\r\n", " \n", "# c", "λ", "if", "then", "\u{3000}", "\n\u{3000}\u{3000}", "\n\u{a0}", "\u{2003}"];
     let pre_lines = if r.chance(1, 3) { r.usize(120) } else { r.usize(12) };
     let mut s = String::new();
     for i in 0..pre_lines {
